@@ -705,7 +705,7 @@ def expand_additional_doses(model: Model, flag: bool = False):
     df = df.apply(fn, axis=1)
     df = df.apply(lambda x: x.explode() if x.name in ['_TIMES', '_EXPANDED'] else x)
     df = df.astype({'_EXPANDED': np.bool_})
-    df = df.groupby([idcol, '_RESETGROUP'], group_keys=False)[df.columns].apply(
+    df = df.groupby([idcol, '_RESETGROUP'], group_keys=False, sort=False)[df.columns].apply(
         lambda x: x.sort_values(by='_TIMES', kind='stable')
     )
     df[idv] = df['_TIMES'].astype(np.float64)
@@ -1128,6 +1128,7 @@ def add_time_after_dose(model: Model):
         df = temp.dataset
 
     df['_DOSEID'] = get_doseid(temp)
+    df['_ORDER'] = np.arange(len(df))
 
     # Sort in case DOSEIDs are non-increasing
     df = (
@@ -1139,11 +1140,14 @@ def add_time_after_dose(model: Model):
     df['TAD'] = df.groupby([idlab, '_DOSEID'])['_NEWTIME'].diff().fillna(0.0)
     df['TAD'] = df.groupby([idlab, '_DOSEID'])['TAD'].cumsum()
 
+    # Back to the record order of the dataset
+    df = df.sort_values(by='_ORDER', kind='stable').reset_index(drop=True)
+
     if addl:
         df = df[~df['EXPANDED']].reset_index(drop=True)
         df.drop(columns=['EXPANDED'], inplace=True)
 
-    df.drop(columns=['_NEWTIME', '_DOSEID'], inplace=True)
+    df.drop(columns=['_NEWTIME', '_DOSEID', '_ORDER'], inplace=True)
 
     # FIXME: Temp workaround, should be canonicalized in Model.replace
     di = update_datainfo(model.datainfo, df)
